@@ -13,7 +13,8 @@ use std::os::unix::ffi::OsStringExt;
 /// All combinations of layer trees, type-consistent or not.
 fn any_layerings(n: usize, paths: &[String]) -> Vec<InitSpec> {
     let bytes: [&[u8]; 4] = [b"u", b"l", b"m", b"n"];
-    let cands: Vec<Vec<Vec<(String, Node)>>> = (0..n).map(|i| trees_over(paths, bytes[i.min(3)])).collect();
+    let cands: Vec<Vec<Vec<(String, Node)>>> =
+        (0..n).map(|i| trees_over(paths, bytes[i.min(3)])).collect();
     let mut out = vec![];
     let mut idx = vec![0usize; n];
     loop {
@@ -21,7 +22,11 @@ fn any_layerings(n: usize, paths: &[String]) -> Vec<InitSpec> {
         if Model::union_of(&layers).is_none() {
             out.push(InitSpec {
                 label: format!("type-inconsistent #{}", out.len()),
-                init: layers.iter().enumerate().map(|(i, l)| (i, l.clone())).collect(),
+                init: layers
+                    .iter()
+                    .enumerate()
+                    .map(|(i, l)| (i, l.clone()))
+                    .collect(),
                 model: None,
             });
         }
@@ -54,12 +59,37 @@ enum IStep {
 }
 
 /// Reader and writer handles used while their file / parent directory is removed or replaced.
-fn handles_vs_removals(depth: usize, vio: &mut Vec<Violation>, classes: &mut BTreeMap<String, u64>) -> u64 {
-    let steps = [IStep::Read1, IStep::SeekEnd3, IStep::SeekStart0, IStep::Write, IStep::Flush, IStep::RemoveFile, IStep::RemoveParentAll, IStep::RecreateFile, IStep::RecreateAsDir];
-    let cfgs = [Cfg::Mem, Cfg::Phys, Cfg::alt(Cfg::Mem, "/Z"), Cfg::Ov(vec![Cfg::Mem, Cfg::Mem])];
+fn handles_vs_removals(
+    depth: usize,
+    vio: &mut Vec<Violation>,
+    classes: &mut BTreeMap<String, u64>,
+) -> u64 {
+    let steps = [
+        IStep::Read1,
+        IStep::SeekEnd3,
+        IStep::SeekStart0,
+        IStep::Write,
+        IStep::Flush,
+        IStep::RemoveFile,
+        IStep::RemoveParentAll,
+        IStep::RecreateFile,
+        IStep::RecreateAsDir,
+    ];
+    let cfgs = [
+        Cfg::Mem,
+        Cfg::Phys,
+        Cfg::alt(Cfg::Mem, "/Z"),
+        Cfg::Ov(vec![Cfg::Mem, Cfg::Mem]),
+    ];
     let n = steps.len();
     let total = n.pow(depth as u32);
-    let work: Vec<(usize, bool, usize)> = (0..cfgs.len()).flat_map(|c| [false, true].into_iter().flat_map(move |w| (0..total).map(move |s| (c, w, s)))).collect();
+    let work: Vec<(usize, bool, usize)> = (0..cfgs.len())
+        .flat_map(|c| {
+            [false, true]
+                .into_iter()
+                .flat_map(move |w| (0..total).map(move |s| (c, w, s)))
+        })
+        .collect();
     let res: Vec<(Vec<Violation>, Vec<String>)> = work
         .par_iter()
         .map(|(ci, writer, code)| {
@@ -130,7 +160,9 @@ fn handles_vs_removals(depth: usize, vio: &mut Vec<Violation>, classes: &mut BTr
     for (v, cl) in res {
         vio.extend(v);
         for c in cl {
-            *classes.entry(format!("handle-vs-removal:{}", c)).or_insert(0) += 1;
+            *classes
+                .entry(format!("handle-vs-removal:{}", c))
+                .or_insert(0) += 1;
         }
     }
     work.len() as u64
@@ -138,15 +170,47 @@ fn handles_vs_removals(depth: usize, vio: &mut Vec<Violation>, classes: &mut BTr
 
 /// Hostile directory contents created behind PhysicalFS's back.
 fn hostile_disk(vio: &mut Vec<Violation>, classes: &mut BTreeMap<String, u64>) -> u64 {
-    let kinds = ["non-utf8-file-name", "non-utf8-dir-name", "dangling-symlink", "symlink-to-dir", "symlink-loop", "symlink-to-file"];
+    let kinds = [
+        "non-utf8-file-name",
+        "non-utf8-dir-name",
+        "dangling-symlink",
+        "symlink-to-dir",
+        "symlink-loop",
+        "symlink-to-file",
+    ];
     let calls = [
-        "read_dir", "walk_dir", "exists", "metadata", "is_file", "is_dir", "open_file", "read_to_string", "create_dir", "create_dir_all", "create_file", "append_file", "remove_file", "remove_dir", "remove_dir_all", "copy_file_to", "copy_file_from",
-        "move_file_from", "copy_dir_from", "move_dir_from", "set_modification_time", "set_access_time",
+        "read_dir",
+        "walk_dir",
+        "exists",
+        "metadata",
+        "is_file",
+        "is_dir",
+        "open_file",
+        "read_to_string",
+        "create_dir",
+        "create_dir_all",
+        "create_file",
+        "append_file",
+        "remove_file",
+        "remove_dir",
+        "remove_dir_all",
+        "copy_file_to",
+        "copy_file_from",
+        "move_file_from",
+        "copy_dir_from",
+        "move_dir_from",
+        "set_modification_time",
+        "set_access_time",
     ];
     let mut n = 0u64;
     for kind in kinds {
         for call in calls {
-            for target in ["hostile entry", "its parent", "a child path below it", "the root"] {
+            for target in [
+                "hostile entry",
+                "its parent",
+                "a child path below it",
+                "the root",
+            ] {
                 let b = build(&Cfg::Phys, Order::Native, &vec![]);
                 let root_dir = b.phys_outer_dirs()[0].join("root");
                 let parent = root_dir.join("p");
@@ -222,7 +286,18 @@ fn hostile_disk(vio: &mut Vec<Violation>, classes: &mut BTreeMap<String, u64>) -
                     "set_access_time" => p.set_access_time(t).is_ok(),
                     _ => unreachable!(),
                 });
-                *classes.entry(format!("hostile-disk:{}:{}:{}", kind, call, match &r { Ok(true) => "Ok", Ok(false) => "Err", Err(_) => "Panic" })).or_insert(0) += 1;
+                *classes
+                    .entry(format!(
+                        "hostile-disk:{}:{}:{}",
+                        kind,
+                        call,
+                        match &r {
+                            Ok(true) => "Ok",
+                            Ok(false) => "Err",
+                            Err(_) => "Panic",
+                        }
+                    ))
+                    .or_insert(0) += 1;
                 if let Err(m) = r {
                     vio.push(Violation {
                         property: "C13".into(),
@@ -240,45 +315,148 @@ fn hostile_disk(vio: &mut Vec<Violation>, classes: &mut BTreeMap<String, u64>) -
 pub fn run_c13(ctx: &Ctx) -> i32 {
     let info = ctx.info("C13", "model_checking");
     let thorough = ctx.tier == Tier::Thorough;
-    let mon = Monitors { panics: true, ..Default::default() };
+    let mon = Monitors {
+        panics: true,
+        ..Default::default()
+    };
     let dom = Domain::Unrestricted { root_removal: true };
     let mut spaces = vec![];
     let a22 = alphabet(u22(), &[b"x"], 1, true);
     let a4 = alphabet(u4(), &[b"x"], 1, true);
     let a3 = alphabet(u3(), &[b"x"], 1, true);
     let mk = |cfg: Cfg, order: Order, alpha: Alphabet, inits: Vec<InitSpec>| {
-        let inits = inits.into_iter().map(|mut i| { i.model = None; i }).collect();
+        let inits = inits
+            .into_iter()
+            .map(|mut i| {
+                i.model = None;
+                i
+            })
+            .collect();
         // on overlays a removal of the root walks into the (visible) /.whiteout directory and writes
         // markers for markers, which makes the state space infinite: root removal is explored on
         // the other configurations only
-        let d = if cfg.has_overlay() { Domain::Unrestricted { root_removal: false } } else { dom.clone() };
+        let d = if cfg.has_overlay() {
+            Domain::Unrestricted {
+                root_removal: false,
+            }
+        } else {
+            dom.clone()
+        };
         TreeSpace::new("C13", cfg, order, alpha, d, inits, mon.clone())
     };
     let ov2 = Cfg::Ov(vec![Cfg::Mem, Cfg::Mem]);
     spaces.push(mk(Cfg::Mem, Order::Asc, a22.clone(), empty_init(false)));
     spaces.push(mk(Cfg::Phys, Order::Asc, a4.clone(), empty_init(false)));
     // prefix-sharing, dotted and multi-byte names (byte-index slicing)
-    spaces.push(mk(Cfg::Mem, Order::Asc, alphabet(u_names(), &[b"x"], 1, true), empty_init(false)));
-    spaces.push(mk(Cfg::Phys, Order::Asc, alphabet(u_names_small(), &[b"x"], 1, false), empty_init(false)));
-    spaces.push(mk(ov2.clone(), Order::Asc, alphabet(u_names_small(), &[b"x"], 1, false), empty_init(false)));
+    spaces.push(mk(
+        Cfg::Mem,
+        Order::Asc,
+        alphabet(u_names(), &[b"x"], 1, true),
+        empty_init(false),
+    ));
+    spaces.push(mk(
+        Cfg::Phys,
+        Order::Asc,
+        alphabet(u_names_small(), &[b"x"], 1, false),
+        empty_init(false),
+    ));
+    spaces.push(mk(
+        ov2.clone(),
+        Order::Asc,
+        alphabet(u_names_small(), &[b"x"], 1, false),
+        empty_init(false),
+    ));
     // names whose byte length minus a small constant falls inside a character
-    let mb = Universe::new("U_multibyte", &["/éé", "/éé/a", "/日a", "/日a/é", "/a😀", "/a😀/b"]);
-    spaces.push(mk(ov2.clone(), Order::Asc, alphabet(mb.clone(), &[b"x"], 1, false), layerings(&[0, 1], &mb.paths[..4].to_vec(), false)));
-    spaces.push(mk(Cfg::Mem, Order::Asc, alphabet(mb.clone(), &[b"x"], 1, true), empty_init(false)));
-    spaces.push(mk(Cfg::alt(Cfg::Mem, "/é"), Order::Asc, alphabet(mb.clone(), &[b"x"], 1, false), empty_init(false)));
-    spaces.push(mk(Cfg::alt(Cfg::Mem, "/Z"), Order::Asc, a4.clone(), empty_init(false)));
+    let mb = Universe::new(
+        "U_multibyte",
+        &["/éé", "/éé/a", "/日a", "/日a/é", "/a😀", "/a😀/b"],
+    );
+    spaces.push(mk(
+        ov2.clone(),
+        Order::Asc,
+        alphabet(mb.clone(), &[b"x"], 1, false),
+        layerings(&[0, 1], &mb.paths[..4].to_vec(), false),
+    ));
+    spaces.push(mk(
+        Cfg::Mem,
+        Order::Asc,
+        alphabet(mb.clone(), &[b"x"], 1, true),
+        empty_init(false),
+    ));
+    spaces.push(mk(
+        Cfg::alt(Cfg::Mem, "/é"),
+        Order::Asc,
+        alphabet(mb.clone(), &[b"x"], 1, false),
+        empty_init(false),
+    ));
+    spaces.push(mk(
+        Cfg::alt(Cfg::Mem, "/Z"),
+        Order::Asc,
+        a4.clone(),
+        empty_init(false),
+    ));
     let u2 = Universe::new("U2{a,a/a}", &["/a", "/a/a"]);
-    spaces.push(mk(ov2.clone(), Order::Asc, alphabet(u2.clone(), &[b"x"], 1, true), layerings(&[0, 1], &u2.paths, true)));
-    spaces.push(mk(ov2.clone(), Order::Desc, alphabet(u2.clone(), &[b"x"], 1, true), any_layerings(2, &u2.paths)));
+    spaces.push(mk(
+        ov2.clone(),
+        Order::Asc,
+        alphabet(u2.clone(), &[b"x"], 1, true),
+        layerings(&[0, 1], &u2.paths, true),
+    ));
+    spaces.push(mk(
+        ov2.clone(),
+        Order::Desc,
+        alphabet(u2.clone(), &[b"x"], 1, true),
+        any_layerings(2, &u2.paths),
+    ));
     if thorough {
-        spaces.push(mk(ov2.clone(), Order::Asc, a3.clone(), layerings(&[0, 1], &u3().paths, false)));
-        spaces.push(mk(ov2.clone(), Order::Desc, a3.clone(), any_layerings(2, &u2.paths)));
-        spaces.push(mk(ov2.clone(), Order::Asc, a4.clone(), any_layerings(2, &u3().paths)));
-        spaces.push(mk(Cfg::Ov(vec![Cfg::Phys, Cfg::Phys]), Order::Asc, a3.clone(), any_layerings(2, &u2.paths)));
-        spaces.push(mk(Cfg::Ov(vec![Cfg::Mem, Cfg::Mem, Cfg::Mem]), Order::Asc, a3.clone(), any_layerings(3, &u2.paths)));
-        spaces.push(mk(Cfg::alt(Cfg::Phys, "/Z"), Order::Asc, a22.clone(), empty_init(false)));
-        spaces.push(mk(Cfg::alt(ov2.clone(), "/Z"), Order::Asc, a3.clone(), layerings(&[0, 1], &u3().paths, false)));
-        spaces.push(mk(Cfg::alt(Cfg::Mem, "/Z"), Order::Desc, alphabet(u_names(), &[b"x"], 1, true), empty_init(false)));
+        spaces.push(mk(
+            ov2.clone(),
+            Order::Asc,
+            a3.clone(),
+            layerings(&[0, 1], &u3().paths, false),
+        ));
+        spaces.push(mk(
+            ov2.clone(),
+            Order::Desc,
+            a3.clone(),
+            any_layerings(2, &u2.paths),
+        ));
+        spaces.push(mk(
+            ov2.clone(),
+            Order::Asc,
+            a4.clone(),
+            any_layerings(2, &u3().paths),
+        ));
+        spaces.push(mk(
+            Cfg::Ov(vec![Cfg::Phys, Cfg::Phys]),
+            Order::Asc,
+            a3.clone(),
+            any_layerings(2, &u2.paths),
+        ));
+        spaces.push(mk(
+            Cfg::Ov(vec![Cfg::Mem, Cfg::Mem, Cfg::Mem]),
+            Order::Asc,
+            a3.clone(),
+            any_layerings(3, &u2.paths),
+        ));
+        spaces.push(mk(
+            Cfg::alt(Cfg::Phys, "/Z"),
+            Order::Asc,
+            a22.clone(),
+            empty_init(false),
+        ));
+        spaces.push(mk(
+            Cfg::alt(ov2.clone(), "/Z"),
+            Order::Asc,
+            a3.clone(),
+            layerings(&[0, 1], &u3().paths, false),
+        ));
+        spaces.push(mk(
+            Cfg::alt(Cfg::Mem, "/Z"),
+            Order::Desc,
+            alphabet(u_names(), &[b"x"], 1, true),
+            empty_init(false),
+        ));
     }
     let lim = limits(ctx);
     let (mut stats, mut vio) = run_spaces(ctx, spaces, &lim);
@@ -293,19 +471,30 @@ pub fn run_c13(ctx: &Ctx) -> i32 {
     // reader / writer scripts at every offset (only panics count here; values are C14's business)
     for b in [HB::Mem, HB::Phys, HB::AltMem, HB::OvLower, HB::Embedded] {
         for c in [&b""[..], &b"abcd"[..]] {
-            let (st, v) = reader_scripts("C13", b, c, 3, &|l: &Live| l.file.open_file().map_err(|e| e.to_string()));
+            let (st, v) = reader_scripts("C13", b, c, 3, &|l: &Live| {
+                l.file.open_file().map_err(|e| e.to_string())
+            });
             extra_runs += st.scripts;
-            vio.extend(v.into_iter().filter(|x| x.signature.contains("Panic") || x.signature.contains("panic")));
+            vio.extend(
+                v.into_iter()
+                    .filter(|x| x.signature.contains("Panic") || x.signature.contains("panic")),
+            );
         }
     }
     for b in [HB::Mem, HB::Phys, HB::OvLower] {
         for append in [false, true] {
             let (st, v) = writer_scripts("C13", b, Some(b"abc"), append, 3);
             extra_runs += st.scripts;
-            vio.extend(v.into_iter().filter(|x| x.signature.contains("Panic") || x.signature.contains("panic")));
+            vio.extend(
+                v.into_iter()
+                    .filter(|x| x.signature.contains("Panic") || x.signature.contains("panic")),
+            );
         }
     }
-    println!("  [handle scripts at every offset] runs so far={}", extra_runs);
+    println!(
+        "  [handle scripts at every offset] runs so far={}",
+        extra_runs
+    );
 
     // hostile on-disk contents
     let n = hostile_disk(&mut vio, &mut classes);
@@ -316,7 +505,10 @@ pub fn run_c13(ctx: &Ctx) -> i32 {
     let (n, v) = super::embedprops::panic_sweep();
     extra_runs += n;
     vio.extend(v);
-    println!("  [EmbeddedFS every operation x every path] evaluations={}", n);
+    println!(
+        "  [EmbeddedFS every operation x every path] evaluations={}",
+        n
+    );
 
     // the async port: lock-step exploration with the unrestricted alphabet and reader scripts
     let (n, v) = super::asyncprops::panic_sweep(ctx);
@@ -333,10 +525,24 @@ pub fn run_c13(ctx: &Ctx) -> i32 {
     // the one documented panic
     match guard(|| vfs::OverlayFS::new(&[])) {
         Err(_) => {}
-        Ok(_) => vio.push(Violation { property: "C13".into(), signature: "OverlayFS::new(&[])|no-panic".into(), summary: "OverlayFS::new(&[]) is documented to panic but returned".into(), replay: json!({"engine": "misc"}) }),
+        Ok(_) => vio.push(Violation {
+            property: "C13".into(),
+            signature: "OverlayFS::new(&[])|no-panic".into(),
+            summary: "OverlayFS::new(&[]) is documented to panic but returned".into(),
+            replay: json!({"engine": "misc"}),
+        }),
     }
 
-    let mut xs = Stats { label: "handle scripts, handles vs removals, hostile disk contents, EmbeddedFS, join strings".into(), states: 1, transitions: extra_runs, fixpoint: true, nontrivial: classes.len() as u64, ..Default::default() };
+    let mut xs = Stats {
+        label:
+            "handle scripts, handles vs removals, hostile disk contents, EmbeddedFS, join strings"
+                .into(),
+        states: 1,
+        transitions: extra_runs,
+        fixpoint: true,
+        nontrivial: classes.len() as u64,
+        ..Default::default()
+    };
     xs.counters = classes;
     stats.push(xs);
     let mut counts = BTreeMap::new();
